@@ -23,6 +23,7 @@ import NemoVerif.Lemmas.GroupCoreVMStart
 import NemoVerif.Lemmas.GroupCoreVMOrRun
 import NemoVerif.Lemmas.GroupCoreVMExit
 import NemoVerif.Lemmas.GroupCoreVMOrStart
+import NemoVerif.Lemmas.GroupCoreVMMirror
 namespace NemoVerif.C07
 open NemoVerif NemoVerif.Dnf NemoVerif.GroupExpand NemoVerif.GroupVM
 
@@ -553,6 +554,34 @@ theorem groupvm_is_corevm_partial_or_group (fuel : Nat) (s : CoreVM.VM) (f : Cor
   refine ⟨s1, s2, s3, h1, h2, ?_⟩
   rw [h3]
   simp only [markers, normalize_eq, toDnf_ofDnf, dnf, dnfOr_atoms, Dnf.init]
+
+/-- **groupvm_is_corevm_partial (pure and-group as the mirrored generator emits it).**  The flow configuration contains
+    `expandAnd c k` (|c| ≥ 2: the and-template that `readBack_expandMatch` / the element-by-element tie relate to the REAL expanded list) at
+    offset `B`, translated element by element, atoms being plain events, with its labels resolved to their label elements; the root head
+    is the only head of the instance, ACTIVE on the template's first element.  For EVERY event sequence `es` CoreVM's `slide`, driven per
+    event, hands the root head back exactly as `markers (andOf c) es` says.  All program-shape hypotheses are discharged from the
+    mirror; what remains are facts about the run-time state at the moment the group statement is reached. -/
+theorem groupvm_is_corevm_partial_and_group_mirror (fuel : Nat) (s : CoreVM.VM) (f : CoreIndex.FUid) (h : CoreIndex.HUid)
+    (i : CoreIndex.Inst) (x : CoreVM.InstX) (cfg : CoreVM.FlowCfg) (hd : CoreIndex.Head)
+    (spec : Nat → CoreVM.Spec) (B k : Nat) (c : List Nat) (a0 : CoreVM.HeadX) (h2 : 2 ≤ c.length)
+    (H : CoreVM.HeadAt s f h i x cfg hd) (hB : hd.pos = B) (hact : hd.status = .active) (hlis : i.status.listening = true)
+    (hc : CoreVM.ContainsAt cfg spec B (expandAnd c k).1)
+    (hlab : ∀ j, j < c.length → cfg.label (CoreVM.nmOf (k + 3 + j)) = some (B + 2 + 3 * j))
+    (hlabE : cfg.label (CoreVM.nmOf (k + 2)) = some (B + 2 + 3 * c.length + 4))
+    (hspec : ∀ a, ∃ n, CoreVM.PlainSpec (spec a) n)
+    (hroot : CoreVM.hview i = [(h, hd.pos, CoreIndex.HeadStatus.active)])
+    (hfresh : ∀ m, m > s.r.nextUid → CoreVM.uidOf m ∉ i.headUids) (hown : x.ctxOwner = none)
+    (ha0 : OMap.lookup (f, h) s.r.hx = some a0) (ha0c : a0.childHeadUids = [])
+    (hfx0 : ∀ m, m > s.r.nextUid → OMap.lookup (f, CoreVM.uidOf m) s.r.hx = none) (es : List Nat) :
+    ∃ s1 s2 s3, CoreVM.slide (fuel + 2) f h s = .ok (CoreVM.newKeys f s.r.nextUid c.length) s1 ∧
+      CoreVM.runMembers (fuel + 1) f ((CoreVM.newKeys f s.r.nextUid c.length).map (·.2)) s1 = .ok () s2 ∧
+      CoreVM.andDriver fuel f ((CoreVM.newsOf s.r.nextUid ((CoreVM.mirrorLps B k c.length).map (·.2))).map fun q => (q.1, q.2 + 1))
+        c.length (CoreVM.allAtMatch c) false es s2 = .ok (markers (andOf c) es) s3 := by
+  obtain ⟨s1, s2, s3, h1, h2', h3⟩ := CoreVM.and_group_of_mirror fuel s f h i x cfg hd spec B k c a0 h2 H hB hact hlis hc hlab hlabE hspec
+    hroot hfresh hown ha0 ha0c hfx0 es
+  refine ⟨s1, s2, s3, h1, h2', ?_⟩
+  rw [h3]
+  simp only [markers, normalize_clause_fixed, toDnf_ofDnf, Dnf.init]
 
 /-! ## the expanded element list -/
 
@@ -1133,6 +1162,31 @@ example (es : List Nat) :=
       · trivial
       · exact ⟨by decide, Or.inl rfl⟩
       · omega)
+    es
+
+/-- the root head on the first element of the mirror's own and-template for the clause [0, 1] -/
+def exVMRootGen : CoreVM.VM :=
+  { ixs := exIxsRoot, r := { prog := { flows := [exCfgGen] }, fx := [("m", exX)], hx := [(("m", "h0"), {})] } }
+
+-- non-vacuity of `groupvm_is_corevm_partial_and_group_mirror`: ANY event sequence
+example (es : List Nat) :=
+  groupvm_is_corevm_partial_and_group_mirror 1 exVMRootGen "m" "h0" exInstRoot exX exCfgGen
+    { uid := "h0", pos := 1, status := .active, elem := none } (fun a => exSpec (if a = 0 then "E0" else "E1")) 1 0 [0, 1] {} (by decide)
+    { hi := rfl, hx := rfl, hc := rfl, hh := rfl, hlt := by decide, hst := by decide } rfl rfl rfl
+    ⟨by decide, by
+      intro j hj
+      have : j < 16 := hj
+      rcases j with _|_|_|_|_|_|_|_|_|_|_|_|_|_|_|_|j <;> first | rfl | omega⟩
+    (by intro j hj; have : j < 2 := hj; rcases j with _ | _ | j <;> first | rfl | omega)
+    rfl (fun a => ⟨_, rfl, rfl, rfl⟩) rfl
+    (by intro m _ hm; simp [exInstRoot, CoreIndex.Inst.headUids] at hm; exact uidOf_ne_h0 m hm)
+    rfl rfl rfl
+    (by
+      intro m _
+      have : (("m", CoreVM.uidOf m) : CoreIndex.Key) ≠ ("m", "h0") := by
+        intro e; exact uidOf_ne_h0 m (by simpa using e)
+      have h2 : ¬ ("h0" = CoreVM.uidOf m) := fun e => uidOf_ne_h0 m e.symm
+      simp [exVMRootGen, OMap.lookup, this, h2])
     es
 
 end NemoVerif.C07
